@@ -168,7 +168,21 @@ class NetworkXPropertyGraph(ABCPropertyGraph, NetworkXMixin):
                                               msg=f"Changing {self.NETWORKX_LABEL} property is not permitted")
         # note that we are not copying node properties, which means the next line modifies
         node_props = self.storage.get_graph(self.graph_id).nodes[self._find_node(node_id=node_id)]
+        self._check_node_id_free(node_id, {prop_name: prop_val})
         node_props[prop_name] = prop_val
+
+    def _check_node_id_free(self, node_id: str, props: Dict[str, Any]) -> None:
+        """
+        A node can be given a new id only if no other node of the graph uses it
+        """
+        new_id = props.get(ABCPropertyGraph.NODE_ID, node_id)
+        if new_id != node_id and len(list(nxq.search_nodes(self.storage.get_graph(self.graph_id),
+                                                           {'and': [
+                                                               {'eq': [ABCPropertyGraph.GRAPH_ID, self.graph_id]},
+                                                               {'eq': [ABCPropertyGraph.NODE_ID, new_id]}
+                                                           ]}))) > 0:
+            raise PropertyGraphQueryException(graph_id=self.graph_id, node_id=node_id,
+                                              msg=f"Unable to change node id - a node with ID {new_id} exists")
 
     def unset_node_property(self, *, node_id: str, prop_name: str) -> None:
         assert node_id is not None
@@ -220,6 +234,7 @@ class NetworkXPropertyGraph(ABCPropertyGraph, NetworkXMixin):
                                               msg=f"Changing {self.NETWORKX_LABEL} property is not permitted")
         # gives pointer directly into properties of a node in a graph
         node_props = self.storage.get_graph(self.graph_id).nodes[self._find_node(node_id=node_id)]
+        self._check_node_id_free(node_id, props)
         node_props.update(props)
 
     def update_link_property(self, *, node_a: str, node_b: str, kind: str, prop_name: str, prop_val: Any) -> None:
